@@ -101,6 +101,7 @@ func runBatch(jobs []Job, wi int) map[int]*JobResult {
 			}
 			switch l.What {
 			case "validated":
+				r.Runs = l.Runs
 				switch {
 				case l.Panic:
 					r.LoadStatus, r.RejectText = "validator-panic", l.Text
@@ -110,6 +111,7 @@ func runBatch(jobs []Job, wi int) map[int]*JobResult {
 					r.LoadStatus, r.RejectText = "reject", l.Text
 				}
 			case "engine":
+				r.Runs = l.Runs
 				switch {
 				case l.Panic:
 					r.EngineLoad, r.EngineText = "panic", l.Text
